@@ -367,7 +367,10 @@ Pow3(n) == IF n <= 0 THEN 1 ELSE 3 * Pow3(n - 1)
 DigitC(code, k) == ((code \div Pow3(k - 1)) % 3) + 1
 \* the LOGICAL value: for floating-point parameters the driver stores +0.0 for digit 1 and -0.0 for digit 2 - two
 \* representations of one value, which must compare equal (C13: equality of logical content, not of bytes)
-ValC(code, k) == IF P[k].flt = 1 /\ DigitC(code, k) = 2 THEN 1 ELSE DigitC(code, k)
+\* signed integral parameters store -1 for digit 3, so that value order and byte order differ (C14)
+ValC(code, k) == IF P[k].flt = 1 /\ DigitC(code, k) = 2 THEN 1
+                 ELSE IF P[k].sgn = 1 /\ DigitC(code, k) = 3 THEN -1
+                 ELSE DigitC(code, k)
 MkElemC(code, vs, fx) ==
   [t |-> code,
    f |-> [k \in Idx |-> IF P[k].k = "count" THEN <<vs[k + 1]>>
